@@ -63,7 +63,8 @@ class Ctx:
         self.notes: list[str] = []
         self.exhaustive = False
         self.scratch = build.BUILD / f"run-{prop_id}-{os.getpid()}"
-        kf = json.loads((VERIF / "known_findings.json").read_text())
+        fp = VERIF / "findings" / f"{prop_id}.json"   # committed; aggregated into known_findings.json; never written at run time
+        kf = json.loads(fp.read_text()) if fp.exists() else {"findings": []}
         self.known = {f["id"]: f for f in kf.get("findings", []) if f["property"] == prop_id and f.get("status") == "known"}
 
     # ---- budget helpers
